@@ -12,8 +12,8 @@ package main
 //     MaxFieldLength and WriteFieldBody are built from the same operands
 
 import (
-	"go/token"
 	"fmt"
+	"go/token"
 	"sort"
 	"strings"
 
